@@ -62,12 +62,12 @@ def model(start, end, duration, hop, inc):
     i = 0
     while True:
         s = S + i * H
-        if s != E and abs(s - E) <= band:
+        if abs(s - E) <= band:      # (also exact equality: on non-dyadic inputs the float sum may land an ulp either side)
             amb = True
         if s >= E:
             break
         e = s + D
-        if e != E and abs(e - E) <= band:
+        if abs(e - E) <= band:
             amb = True
         if e > E:
             if not inc:
